@@ -149,13 +149,13 @@ def DragModelMultiBC(bc_points: List[BCPoint],
 
     drag_table = make_data_points(drag_table)  # Convert from list of dicts to list of DragDataPoints
 
-    bc_points.sort(key=lambda p: p.Mach)  # Make sure bc_points are sorted for linear interpolation
+    bc_points = sorted(bc_points, key=lambda p: p.Mach)  # Make sure bc_points are sorted for linear interpolation
     bc_interp = linear_interpolation([x.Mach for x in drag_table],
                                      [x.Mach for x in bc_points],
                                      [x.BC / bc for x in bc_points])
 
-    for i, point in enumerate(drag_table):
-        point.CD = point.CD / bc_interp[i]
+    # new data points: the ones passed in (possibly another model's drag_table) must stay as they are
+    drag_table = [DragDataPoint(point.Mach, point.CD / bc_interp[i]) for i, point in enumerate(drag_table)]
     return DragModel(bc, drag_table, weight, diameter, length)
 
 
